@@ -238,6 +238,23 @@ class MultiFit(FitBase):
                     add_children=False,
                 )
                 _y_cov_mat_names.append(_y_cov_mat_name)
+
+                # The cost node of this fit is replaced by the shared cost function, which knows nothing about the
+                # parameter constraints of the individual fits: keep their cost as a separate summand.
+                _par_values_name = "parameter_values%s" % _i
+                _par_constraints_name = "parameter_constraints%s" % _i
+                _constraint_cost_name = "constraint_cost%s" % _i
+                self._nexus.add(Alias(ref=_fit_i._nexus.get("parameter_values"), name=_par_values_name), add_children=False)
+                self._nexus.add(Alias(ref=_fit_i._nexus.get("parameter_constraints"), name=_par_constraints_name), add_children=False)
+                self._nexus.add_function(
+                    lambda parameter_values, parameter_constraints: float(
+                        np.sum([_constraint.cost(parameter_values) for _constraint in parameter_constraints])
+                    ),
+                    func_name=_constraint_cost_name,
+                    par_names=[_par_values_name, _par_constraints_name],
+                    add_children=False,
+                )
+                _cost_names.append(_constraint_cost_name)
             else:
                 _cost_functions.append(_fit_i._cost_function)
                 _cost_names.append("cost%s" % _i)
@@ -671,6 +688,9 @@ class MultiFit(FitBase):
         _gof_sum = 0.0
         for _fit in self._fits:
             if self._shared_error_nodes_initialized and _fit._cost_function.is_chi2:
+                # residuals are part of the shared cost function, the constraints of the fit are not
+                for _parameter_constraint in _fit.parameter_constraints:
+                    _gof_sum += _parameter_constraint.cost(_fit.parameter_values)
                 continue
             _gof = _fit.goodness_of_fit
             if _gof is None:
